@@ -25,4 +25,5 @@ def main (args : List String) : IO UInt32 := do
   | ["C16"] => Proto.runLoop C16.driverStep {}; return 0
   | ["C14"] => Proto.runLoop C14.driverStep {}; return 0
   | ["C10"] => Proto.runLoop (C10.driverStep C10.Generated.kernels) {}; return 0
+  | ["C13"] => Proto.runLoop C13.driverStep {}; return 0
   | _ => IO.eprintln s!"unknown driver {args}"; return 2
